@@ -188,7 +188,7 @@ def run_shard(spec, ctx):
             run_beam(a5, geo, c, r, ctx)
         ctx.sample({'beam_start': c, 'r': r})
     else:
-        kinds = ['uniform', 'polar', 'frame', 'antimeridian', 'hug']
+        kinds = ['uniform', 'polar', 'frame', 'antimeridian', 'hug', 'edge', 'seam']
         for n in range(spec['n']):
             cls = kinds[n % len(kinds)]
             p, r = gen.point(rnd, a5, cls, rnd.randint(1, 29))
